@@ -240,6 +240,7 @@ func c04(c *core.Check) {
 	c04RelativeUnits(c)
 	c04FontSizeArg(c)
 	c04NoDeclarations(c)
+	c04TwinComponents(c)
 
 	// ---- R9 computed values are per element: a computer function never converts the declared value in place
 	r9 := c.Rule("R9", "no computer function writes through the declared value it receives (it belongs to the stylesheet or to the initial values and is shared by every element the rule matches): otherwise the first element computed fixes the value of all the others", 34)
